@@ -65,9 +65,12 @@ def run(shard, rec):
     flt_first = [c for c in cases if c.get('type') == 'flt' and 0 < len(c['R']) < m][:max(4, shard['budget'] // 8)]
     cases = flt_first + [c for c in cases if c not in flt_first][:shard['budget']]
 
+    late = {}
+
     def run_once(op, sseed, value):
         log.clear()
         phase.clear()
+        late.clear()
 
         async def program(mpc, pid):
             types = {'int': mpc.SecInt(16), 'fxp': mpc.SecFxp(16, 8), 'fld': mpc.SecFld(101), 'flt': mpc.SecFlt(16), 'grp': mpc.SecGrp(G)}
@@ -103,6 +106,14 @@ def run(shard, rec):
                 r = await mpc.output(x, receivers=op['R'], **kw)
                 await mpc.barrier()
                 phase[pid] = 'after'
+                if tp in ('int', 'fxp', 'fld') and len(op['R']) < len(mpc.parties):
+                    # the receivers are those named at the call: the caller reuses its list object afterwards while the value is still being computed
+                    Rl = list(op['R'])
+                    y = (x * x + 1) * x                      # pending at the time of the call
+                    fut = mpc.output(y, receivers=Rl, **kw)
+                    Rl.append(min(p_ for p_ in range(len(mpc.parties)) if p_ not in op['R']))
+                    late[pid] = await fut
+                    await mpc.barrier()
             else:
                 await mpc.transfer(pid)
                 await mpc.barrier()
@@ -139,6 +150,11 @@ def run(shard, rec):
         if op['kind'] == 'output':
             R = set(op['R'])
             allowed = lambda src, dst: dst in R
+            for p_, v_ in sorted(late.items()):
+                rec.count('late_receiver_list_mutations')
+                if p_ not in R and v_ is not None:
+                    rec.violation(f'{shard["name"]} {op}: party {p_} was not among the receivers named in the call (the caller appended it to its list afterwards) but obtained {v_}',
+                                  {'kind': 'output', 'type': op.get('type'), 'mechanism': 'receiver-list-aliased'}, {'case': case}, case=case)
         elif op['kind'] == 'graph':
             arcs = {tuple(a) for a in op['arcs']}
             allowed = lambda src, dst: (src, dst) in arcs
